@@ -318,6 +318,7 @@ func runC06(c *core.Ctx) {
 			c.Check(len(problems) == 0, "R6.3", k3, pos, "opaque registered with the request's own channel and advanced per write", strings.Join(problems, "; "))
 			checkRepliesCounted(c, pv, ser, loops, ins, rt)
 		})
+		checkOpaquesDistinct(c, ser)
 		for rt := range reqTypeWriter {
 			if !seenCase[rt] {
 				c.Violate("R6.2", "batchIntoBuffer#case:"+rt, c.P.Pos(ser.Pos()), "the serialiser has no case writing a command for "+rt+": such a request is never sent and its caller waits forever")
@@ -774,4 +775,106 @@ func checkRepliesCounted(c *core.Ctx, pv *ssax.Prov, ser *ssa.Function, loops []
 		}
 	}
 	c.Check(ok, "R6.3", key, c.P.Pos(upd.Pos()), "one reply expected per command written in the loop", why+": recovery skips a caller that still waits, which then takes the closed channel for the end of a complete answer")
+}
+
+// opaqueIncrements: the instructions that advance the opaque counter of the serialiser (BinOp + positive constant in the
+// backward web of the opaque arguments of the command writers).
+func opaqueIncrements(ser *ssa.Function) map[ssa.Instruction]bool {
+	incs := map[ssa.Instruction]bool{}
+	seen := map[ssa.Value]bool{}
+	var walk func(v ssa.Value)
+	walk = func(v ssa.Value) {
+		if v == nil || seen[v] {
+			return
+		}
+		seen[v] = true
+		switch x := v.(type) {
+		case *ssa.Phi:
+			for _, e := range x.Edges {
+				walk(e)
+			}
+		case *ssa.BinOp:
+			if x.Op == token.ADD {
+				if k, ok := ssax.ConstInt(x.Y); ok && k > 0 {
+					incs[x] = true
+					walk(x.X)
+				} else if k, ok := ssax.ConstInt(x.X); ok && k > 0 {
+					incs[x] = true
+					walk(x.Y)
+				}
+			}
+		case *ssa.Convert:
+			walk(x.X)
+		}
+	}
+	ssax.Instrs(ser, func(ins ssa.Instruction) {
+		if cc := ssax.CallOf(ins); cc != nil && strings.HasPrefix(ssax.CalleeName(cc), pBinprot+".Write") && len(cc.Args) > 0 {
+			walk(cc.Args[len(cc.Args)-1])
+		}
+	})
+	return incs
+}
+
+type opqState struct {
+	f       ssax.Facts
+	pending string // position of a command written since the opaque last advanced ("" = none)
+}
+
+func (s *opqState) Key() string        { return s.pending + "/" + s.f.Key() }
+func (s *opqState) Copy() ssax.PState { return &opqState{s.f.Clone(), s.pending} }
+
+// checkOpaquesDistinct (R6.3): no two commands of one batch carry the same opaque. Path exploration of the serialiser
+// with constant/interval facts for its small integers (loop indices, the expected-reply count): on every feasible
+// path the opaque counter advances between two consecutive command writes, whichever requests they belong to.
+func checkOpaquesDistinct(c *core.Ctx, ser *ssa.Function) {
+	incs := opaqueIncrements(ser)
+	isWrite := func(i ssa.Instruction) bool {
+		cc := ssax.CallOf(i)
+		return cc != nil && strings.HasPrefix(ssax.CalleeName(cc), pBinprot+".Write")
+	}
+	var bad []string
+	ex := &ssax.Explorer{Fn: ser}
+	ex.Enter = func(b, pred *ssa.BasicBlock, st ssax.PState) { st.(*opqState).f.EnterBlock(b, pred) }
+	ex.Instr = func(ins ssa.Instruction, ps ssax.PState) bool {
+		s := ps.(*opqState)
+		if incs[ins] {
+			s.pending = ""
+		}
+		if isWrite(ins) {
+			if s.pending != "" {
+				bad = append(bad, "the command at "+c.P.Pos(ins.Pos())+" can be written with the same opaque as the one at "+s.pending)
+			}
+			s.pending = c.P.Pos(ins.Pos())
+		}
+		s.f.Step(ins)
+		return true
+	}
+	// only the small integers matter here (loop indices, the expected-reply count): everything else is dropped so that
+	// the state space stays small
+	intsOnly := func(v ssa.Value) bool {
+		t := v.Type()
+		if p, ok := t.(*types.Pointer); ok {
+			t = p.Elem()
+		}
+		b, ok := t.Underlying().(*types.Basic)
+		return ok && b.Info()&types.IsInteger != 0
+	}
+	ex.Branch = func(ifi *ssa.If, truth bool, ps ssax.PState) bool {
+		s := ps.(*opqState)
+		if !s.f.Assume(ifi.Cond, truth) {
+			return false
+		}
+		s.f.Retain(intsOnly)
+		return true
+	}
+	ex.Run(&opqState{f: ssax.Facts{}})
+	key := "batchIntoBuffer#opaques-distinct"
+	if ex.Exceeded {
+		c.Undecided("R6.3", key, c.P.Pos(ser.Pos()), "state space exceeded")
+		return
+	}
+	bad = uniq(bad)
+	sort.Strings(bad)
+	c.Check(len(bad) == 0, "R6.3", key, c.P.Pos(ser.Pos()), fmt.Sprintf("the opaque advances between any two consecutive command writes (%d abstract states)", ex.Visited),
+		strings.Join(bad, "; ")+": the later registration overwrites the earlier one in the reply table, so one caller receives another caller's reply and the other waits forever")
 }
